@@ -1,4 +1,5 @@
 """C25 — lease semantics (storage/lease.py, lease_schema.py, immutable.py, mutable.py, server.py)."""
+import os
 import props._storage_common as sc
 from common import hx, unhx
 
@@ -329,14 +330,65 @@ class Monitor:
         ctx.case((self.hi, self.opi) if nontrivial else None)
 
 
+def S(k):
+    return hx(bytes([k]) * 32)
+
+
+def corpus():
+    """Fixed cases that run first in every run; one per known failure mechanism.  VERIF_CORPUS_ONLY=1 runs only these."""
+    return [corpus_growth_with_extra_leases(), corpus_holes(), corpus_upload_overrun()]
+
+
+def corpus_growth_with_extra_leases():
+    """a mutable share with 7 leases (3 extra, block of 280 bytes) grows by less than the block, then the later leases
+    are renewed / re-added by their own secrets"""
+    ls = [(1, 3000000 + i, bytes([0x21 + i]) * 32, bytes([0x31 + i]) * 32) for i in range(7)]
+    ops = [["put", 0, sc.rle(sc.fabricate_mutable(2, sc.NODEID, unhx(WE), b"d" * 10, ls))], ["leases"]]
+    end = 10
+    for grow in [3, 40, 279]:
+        end += grow
+        ops += [["rtw", 100, 10 ** 12, WE, S(0x21), S(0x31), False, [[0, [], [[end - 1, hx(b"G")]], None]], []], ["leases"], ["dump"]]
+    ops += [["order"], ["renew", 200, S(0x26)], ["order"], ["addlease", 300, 10 ** 12, S(0x27), S(0x37)], ["leases"], ["dump"]]
+    return {"nodeid": hx(sc.NODEID), "ops": ops, "kind": "corpus"}
+
+
+def corpus_holes():
+    """cancel a lease in an earlier slot (header slot and extra slot), then renew / add / write with the secrets of leases
+    BEHIND the hole"""
+    ls = [(1, 3000000 + i, bytes([0x21 + i]) * 32, bytes([0x31 + i]) * 32) for i in range(6)]
+    ops = [["put", 0, sc.rle(sc.fabricate_mutable(2, sc.NODEID, unhx(WE), b"data", ls))],
+           ["cancel", 0, "crawler", S(0x31)], ["leases"],
+           ["order"], ["renew", 10, S(0x22)], ["order"], ["addlease", 20, 10 ** 12, S(0x23), S(0x33)], ["leases"],
+           ["rtw", 30, 10 ** 12, WE, S(0x24), S(0x34), True, [[0, [], [[4, hx(b"more")]], None]], []], ["leases"],
+           ["cancel", 0, "secret", S(0x35)], ["order"], ["renew", 40, S(0x26)], ["order"],
+           ["addlease", 50, 10 ** 12, S(0x26), S(0x36)], ["leases"], ["dump"]]
+    return {"nodeid": hx(sc.NODEID), "ops": ops, "kind": "corpus"}
+
+
+def corpus_upload_overrun():
+    """immutable uploads of size 1, 0 and 20: writes overrunning by 1, 5, 12 and 13 bytes, an exact one, then the
+    uploader renews / re-adds with its own secrets"""
+    ops = []
+    now = 5
+    for (n, size) in [(0, 1), (1, 0), (2, 20)]:
+        ops += [["order"], ["alloc", now, 10 ** 12, n, size, S(0x41 + n), S(0x51 + n)], ["idump"]]
+        for over in [1, 5, 12, 13]:
+            ops += [["bwrite", n, 0, hx(b"\xee" * (size + over))], ["idump"]]
+        if size:
+            ops += [["bwrite", n, 0, hx(b"\xdd" * size)], ["idump"]]
+        ops += [["bclose", n], ["leases"]]
+    ops += [["order"], ["renew", 50, S(0x41)], ["order"], ["addlease", 60, 10 ** 12, S(0x42), S(0x52)], ["leases"], ["dump"]]
+    return {"nodeid": hx(sc.NODEID), "ops": ops, "kind": "corpus"}
+
+
 def run(ctx):
     impl = sc.Impl()
     try:
         if ctx.replay:
             hists = [ctx.replay["case"]["history"]]
         else:
-            hists = []
-            for i in range(ctx.budget(150, 12000)):
+            hists = corpus()
+            for i in range(0 if os.environ.get("VERIF_CORPUS_ONLY") else ctx.budget(150, 12000)):
                 if i % 4 == 3:
                     hists.append(gen_upload_history(ctx.rng))
                 else:
